@@ -146,6 +146,19 @@ def gen_vectors(ck, w, count):
         base.append([("e",), ("i", False, True, ("S", sp)), ("o", True)])
         base.append([("d",), ("i", False, True, ("S", sp)), ("o", True), ("k", "V1")])
         base.append([("v",), ("i", False, True, ("S", sp)), ("k", "V1")])
+    # an option given twice: the later value wins, whatever became of the earlier one (good then bad, bad then good, both good)
+    for a, b in (("P", "M"), ("M", "P"), ("P", "P"), ("W1", "P"), ("P", ("N", 124))):
+        base.append([("e",), ("i", False, True, a), ("i", isinstance(b, tuple), True, b), ("o", True)])
+        base.append([("e",), ("i", False, True, a), ("o", True), ("i", isinstance(b, tuple), True, b)])
+    for a, b in (("W1", "M"), ("M", "W1"), ("W1", "W2"), ("W2", "W1")):
+        base.append([("d",), ("i", False, True, a), ("i", False, True, b), ("o", True), ("k", "V1")])
+        base.append([("v",), ("i", False, True, a), ("k", "V1"), ("i", False, True, b)])
+    for a, b in ((True, False), (False, True), (True, True)):
+        base.append([("e",), ("i", False, True, "P"), ("o", a), ("o", b)])
+        base.append([("d",), ("i", False, True, "W1"), ("o", a), ("k", "V1"), ("o", b)])
+    for a, b in (("V1", "I"), ("I", "V1"), ("V2", "V1"), ("V1", "V2")):
+        base.append([("d",), ("i", False, True, "W1"), ("o", True), ("k", a), ("k", b)])
+        base.append([("v",), ("i", False, True, "W1"), ("k", a), ("k", b)])
     for toks in base:
         t2 = list(toks)
         res.append(t2)
@@ -168,6 +181,12 @@ def gen_vectors(ck, w, count):
             toks.append(("n",))
         if r.random() < 0.08:
             toks.append(("x",))
+        if r.random() < 0.12:
+            toks.append(rnd_in())
+        if r.random() < 0.08:
+            toks.append(("o", r.random() < 0.7))
+        if r.random() < 0.08:
+            toks.append(("k", r.choice(["V1", "V2", "I"])))
         r.shuffle(toks)
         if toks:        # no argument at all = interactive prompt mode, excluded by the property
             res.append(toks)
@@ -285,7 +304,7 @@ def run(ck):
     mdrv = ck.model_driver()
     big = ck.tier == "thorough"
     w = World(ck, exe)
-    vecs = gen_vectors(ck, w, 1500 if big else 300)
+    vecs = gen_vectors(ck, w, 1600 if big else 420)
     model = wv.run_lines([mdrv], ["c%d cli %s" % (i, t) for i, (t, argv, toks) in enumerate(vecs)])
     # the option loop and the checks after it as the TRANSLATED SOURCE performs them (get_v_opt, parseOpts, parseModeNumber,
     # getArgsKey, check_ctype/htype, base64 under MiniC, in the environment CliConc.conc builds from the tokens) vs CliModel
